@@ -238,7 +238,8 @@ impl Color3f<Rgb> {
         };
         let h = h / 6.0;
         let l = (max + min) / 2.0;
-        let s = if l == 0.0 || l == 1.0 {
+        let s = if d == 0.0 || l == 0.0 || l == 1.0 {
+            // Grays have no saturation (and 0 / 0 must be avoided)
             0.0
         } else {
             // May exceed 1.0 by a rounding error
